@@ -54,25 +54,12 @@ Theorem C06_constant_condition_claim_true : forall p c s0 s e v (b : bool),
 Proof. exact constant_condition_claim_true. Qed.
 Print Assumptions C06_constant_condition_claim_true.
 
-(* THE FINDING ITSELF (CS0009, constant_conditional.rs, mirrored by Model.ConstCond
-   and compared with the real pass on every explored definition): the reported
-   if statements are exactly those whose condition carries a boolean claim ... *)
-Theorem C06_constant_condition_findings_exact : forall c bi i b,
-  In (bi, i, b) (find_constant_conditional c) <->
-  exists blk k m e t f, In blk (c_blocks c) /\ b_index blk = bi /\ i = N.of_nat k /\
-                        nth_error (b_stmts blk) k = Some (SIf m e t f) /\ expr_val e = Some (VBool b).
-Proof. exact find_constant_conditional_exact. Qed.
-Print Assumptions C06_constant_condition_findings_exact.
-(* ... the label text says "always true" exactly for the claim true, "always false" exactly for false ... *)
-Theorem C06_constant_condition_label_true : forall b,
-  cc_label_message b = "This condition is always true."%string <-> b = true.
-Proof. exact cc_label_message_true. Qed.
-Print Assumptions C06_constant_condition_label_true.
-Theorem C06_constant_condition_label_false : forall b,
-  cc_label_message b = "This condition is always false."%string <-> b = false.
-Proof. exact cc_label_message_false. Qed.
-Print Assumptions C06_constant_condition_label_false.
-(* ... and on a validated graph a reported condition never takes the other truth value *)
+(* THE FINDING ITSELF (CS0009, constant_conditional.rs, mirrored by Model.ConstCond and
+   compared with the real pass, label text included, on every explored definition; that
+   the mirror reports exactly the if statements whose condition carries a boolean claim,
+   with "always true" exactly for the claim true, are definitional facts about the mirror
+   kept as lemmas in Proofs.ConstCondProofs, not counted as obligations): *)
+(* on a validated graph a reported condition never takes the other truth value *)
 Theorem C06_constant_condition_finding_true : forall p c s0 s bi i b,
   prime p -> 2 < p -> Z.log2 p < 2 ^ 64 ->
   vjust_cfg p c = true ->
